@@ -282,9 +282,14 @@ class NetworkClient(KGLambda):
         From the KlongPy perspective, any outstanding remote calls will fail with the close_exception.
 
         """
-        for future in self.pending_responses.values():
-            future.set_exception(close_exception)
+        # Snapshot, then clear: a caller on another thread may register a new future at any
+        # time, and iterating the live dict would then raise "dictionary changed size during
+        # iteration", leaving the remaining futures (and their callers) waiting forever.
+        futures = list(self.pending_responses.values())
         self.pending_responses.clear()
+        for future in futures:
+            if not future.done():
+                future.set_exception(close_exception)
 
     def run_client(self):
         """
@@ -438,8 +443,13 @@ class NetworkClient(KGLambda):
         self.pending_responses[msg_id] = future
 
         async def send_message_and_get_result():
-            await stream_send_msg(self.writer, msg_id, msg)
-            return await future
+            try:
+                await stream_send_msg(self.writer, msg_id, msg)
+                return await future
+            finally:
+                # never leave an entry behind (e.g. when the send fails because the
+                # connection is already gone)
+                self.pending_responses.pop(msg_id, None)
 
         return asyncio.run_coroutine_threadsafe(send_message_and_get_result(), self.ioloop).result()
 
